@@ -15,7 +15,8 @@ def run(spec, tier, seed, replay=None):
     notes = []
 
     # 1. proofs
-    build_ok, build_log = C.coq_build()
+    targets = ["theories/Props/%s.vo" % pid] + ["theories/%s.vo" % m.replace(".", "/") for m in spec.get("coq_modules", [])]
+    build_ok, build_log = C.coq_build(targets=targets)
     tokens = C.forbidden_tokens()
     pc = C.props_check(pid) if build_ok else {"ok": False, "obligations": 0, "discharged": 0, "theorems": [],
                                                "log": build_log[-4000:]}
